@@ -8,6 +8,7 @@ import (
 	"math/big"
 
 	"github.com/ethereum/go-ethereum/common"
+	ethtypes "github.com/ethereum/go-ethereum/core/types"
 
 	. "verifharness/hx"
 )
@@ -19,6 +20,13 @@ type callSpec struct {
 	value       *big.Int
 	predictable bool // reads neither block context nor the sender's balance
 	gasDep      bool // gas need depends on the gas supplied / differs from gas used
+
+	// shape of the request (x/evm/types TransactionArgs) and of the transaction the RPC backend would build from it:
+	// price "" = no fee fields (dynamic-fee transaction with the driver's default fee cap when delivered),
+	// "legacy" = gasPrice (legacy transaction, access-list transaction when al is set), "1559" = maxFeePerGas + maxPriorityFeePerGas
+	price  string
+	al     ethtypes.AccessList
+	extras bool // "data" and "input" both set, nonce and chainId set
 }
 
 var (
